@@ -2196,7 +2196,10 @@ fn scenario_b(out: &mut Out, seed: u64, with_fault: bool) {
                     let wanted = p.all || p.subs.contains(ev);
                     let has = got.contains(&(*ev, *tok));
                     if wanted && !has {
-                        out.fail("C06", &format!("client {}: a proxy subscribed to event {} of a live service did not get the event its owner emitted (token {})", ci, ev, tok), &ctx(&trace));
+                        let what = format!("client {}: a proxy subscribed to event {} of a live service did not get the event its owner emitted (token {})", ci, ev, tok);
+                        out.fail("C06", &what, &ctx(&trace));
+                        // the same observation under the property about event delivery
+                        out.fail("C04", &what, &ctx(&trace));
                     }
                     if wanted {
                         out.count("B.probe-events-delivered");
